@@ -287,6 +287,11 @@ def expr_nonnull(ctx, P, f, e, at, depth=0):
     if k == "DeclRefExpr":
         d = f.decl(e0)
         if d is not None and d["k"] == "ParmVar":
+            if f.cfg() is not None and at is not None:
+                st = NullFlow(f).solve().before(at)
+                key = ptr_key(f, e0)
+                if st is not TOP and key and ("nn", key) in st:
+                    return True, "`%s` is tested non-null in %s before the use" % (key, f.n)
             idx = [i for i, p in enumerate(f.params()) if p["n"] == d["n"]]
             sites = _callsites(P).get(f.u, [])
             if not sites:
